@@ -112,6 +112,17 @@ def run_allvec(res, spec, anp):
     res["judged"][sig_key(sig)] = res["judged"].get(sig_key(sig), 0) + 1
 
 
+def checkpointed_ops(ops):
+    """Reverse-mode operators applied to checkpoint(f) instead of f (checkpoint must be transparent at every
+    nesting level; it has no forward rule, so only all-reverse nestings use it)."""
+    from autograd import checkpoint
+
+    out = dict(ops)
+    for k in ("grad", "egrad", "jacobian", "vjp1"):
+        out[k] = (lambda op: (lambda f, a: op(checkpoint(f), a)))(ops[k])
+    return out
+
+
 def threaded_ops(ops):
     """The same operators, each evaluated in a worker thread that is started (and joined) at the point of
     the call - i.e. inside the enclosing traced function when the operator is an inner level."""
@@ -252,6 +263,14 @@ def enumerate_specs(tier, seed):
                 specs.append({"depth": 2, "ops": list(ops), "masks": [0, m1], "template": t, "threaded": True})
     for _ in range(300 if tier == "quick" else 3000):
         specs.append({"depth": 3, "ops": [str(o) for o in rng.choice(OPNAMES, size=3)], "masks": [0, int(rng.integers(0, 2)), int(rng.integers(0, 4))], "template": int(rng.integers(0, 3)), "threaded": True})
+    # every (reverse) level differentiates checkpoint(f)
+    REV = ["grad", "egrad", "jacobian", "vjp1"]
+    for ops in itertools.product(REV, repeat=2):
+        for m1 in range(2):
+            for t in range(3):
+                specs.append({"depth": 2, "ops": list(ops), "masks": [0, m1], "template": t, "ckpt": True})
+    for _ in range(150 if tier == "quick" else 2000):
+        specs.append({"depth": 3, "ops": [str(o) for o in rng.choice(REV, size=3)], "masks": [0, int(rng.integers(0, 2)), int(rng.integers(0, 4))], "template": int(rng.integers(0, 3)), "ckpt": True})
     # array-valued variables at every level (inner bodies close over enclosing ARRAYS)
     for ops in itertools.product(OPNAMES, repeat=2):
         for m1 in range(2):
@@ -283,6 +302,13 @@ def run_spec(res, spec, ops, anp):
         return _run_spec(res, spec, ops, anp)
     finally:
         probs = getattr(PROBES, "box_problems", [])
+        if spec.get("ckpt"):
+            # checkpoint re-traces its function when the node is created: ids of those re-traces are later than
+            # the ids of traces that are semantically inside them, so the creation-order form of the nesting
+            # invariant does not apply (values are still compared with the symbolic reference)
+            keep = [p_ for p_ in probs[nprob:] if p_[0] != "box_nesting_order"]
+            del probs[nprob:]
+            probs.extend(keep)
         if len(probs) > nprob:
             kind, detail = probs[nprob]
             s = {"engine": "nesting", "depth": spec["depth"], "ops": spec["ops"], "masks": spec["masks"], "template": spec["template"], "allvec": bool(spec.get("allvec")), "symptom": "sanitizer:" + kind}
@@ -301,6 +327,9 @@ def _run_spec(res, spec, ops, anp):
     sig = {"engine": "nesting", "depth": spec["depth"], "ops": spec["ops"], "masks": spec["masks"], "template": spec["template"], "vec": [spec.get("vec_level"), spec.get("vecop")], "indep": bool(spec.get("indep"))}
     if spec.get("const_at"):
         sig["const_at"] = True
+    if spec.get("ckpt"):
+        sig["ckpt"] = True
+        ops = checkpointed_ops(ops)
     if spec.get("threaded"):
         sig["threaded"] = True
         ops = threaded_ops(ops)
